@@ -180,6 +180,7 @@ func (s *fileSeedSegment) WriteInto(dst *os.File, offset, length, blocksize uint
 // Validate compares all chunks in this slice of the seed index to the underlying data
 // and fails if they don't match.
 func (s *fileSeedSegment) Validate(file *os.File) error {
+	verifYield("fileseed.validate")
 	for _, c := range s.chunks {
 		b := make([]byte, c.Size)
 		if _, err := file.ReadAt(b, int64(c.Start)); err != nil {
